@@ -236,7 +236,9 @@ class SensorModel:
         self.Covariance = common.named_covariance("Covariance", self.arglist_state)
         self.Calibration = common.named_vector("Calibration", self.arglist_calibration)
         self.Reading = common.named_vector("Reading", self.readings)
-        self.ReadingCovariance = common.named_vector("ReadingCovariance", self.readings)
+        self.ReadingCovariance = common.named_covariance(
+            "ReadingCovariance", self.readings
+        )
 
         self.calibration_vector = np.array(
             [[calibration_map[k] for k in self.arglist_calibration]]
